@@ -3,9 +3,13 @@ from __future__ import annotations
 import abc
 import dataclasses
 import math
+import sys
 import typing
 from typing import NamedTuple
 import unicodedata
+
+
+sys.set_int_max_str_digits(0)  # integers are unbounded in this language
 
 
 def _get_width(s: str) -> int:
